@@ -602,13 +602,14 @@ class SecurityIssues(IntFlag):
 
     @property
     def causes_signature_verify_to_fail(self):
-        return self in {
-            SecurityIssues.WrongSig,
-            SecurityIssues.Expired,
-            SecurityIssues.Disabled,
-            SecurityIssues.Invalid,
-            SecurityIssues.NoSelfSignature,
-        }
+        # any one of these bits disqualifies, whatever advisory bits are set next to it
+        return bool(self & (
+            SecurityIssues.WrongSig
+            | SecurityIssues.Expired
+            | SecurityIssues.Disabled
+            | SecurityIssues.Invalid
+            | SecurityIssues.NoSelfSignature
+        ))
 
 
 # https://safecurves.cr.yp.to/
